@@ -89,16 +89,17 @@ Consulted(tree) == MainScan(tree, NLy(tree)) \o AllDrops(tree, 1)
 
 \* ---------- one consulted file after the other ----------
 \* faults[f] = SET of things that make the read of file f fail:
-\*   "symlink" "owner" "group" "fileperm"   a restriction in force that the file violates (checked first, in lstat order)
+\*   "symlink" "owner" "group" "fileperm" "dirperm"   a restriction in force that the file violates (checked first, in lstat order)
 \*   "reject"                   the caller's callback says no (asked after the restrictions, before parsing)
 \*   "malformed"                the content has a malformed line (found last)
 \*   "dangling"                 a drop-in that is a symbolic link to nowhere: listed by scandir, accepted by the
 \*                              callback, but it cannot be opened: the read fails with ECONF_NOFILE
-SecKinds == {"owner", "group", "symlink", "fileperm"}
+SecKinds == {"owner", "group", "symlink", "fileperm", "dirperm"}
 CodeOf(x) == CASE x = "reject" -> "ECONF_PARSING_CALLBACK_FAILED"
                [] x = "owner" -> "ECONF_WRONG_OWNER" [] x = "group" -> "ECONF_WRONG_GROUP"
                [] x = "symlink" -> "ECONF_ERROR_FILE_IS_SYM_LINK"
                [] x = "fileperm" -> "ECONF_WRONG_FILE_PERMISSION"
+               [] x = "dirperm" -> "ECONF_WRONG_DIR_PERMISSION"
                [] x = "malformed" -> "ECONF_MISSING_BRACKET"
                [] x = "dangling" -> "ECONF_NOFILE"
                [] OTHER -> "ECONF_SUCCESS"
